@@ -22,11 +22,11 @@ from .sym import Unsupported, PyRaise
 VERIF = os.path.dirname(os.path.dirname(os.path.abspath(__file__)))
 REPO = os.environ.get("OSACA_REPO", "/repo")
 VENV_PY = "/venv/bin/python"
-Z3_TIMEOUT_MS = int(os.environ.get("PYVC_Z3_TIMEOUT_MS", "20000"))
+Z3_TIMEOUT_MS = int(os.environ.get("PYVC_Z3_TIMEOUT_MS", "10000"))
 
 
 # ------------------------------------------------------------------ discharge
-def _cli_fallback(smt2, budget_s=60):
+def _cli_fallback(smt2, budget_s=20):
     """try the other installed solvers on an SMT-LIB dump; returns (verdict, backend)"""
     with tempfile.NamedTemporaryFile("w", suffix=".smt2", delete=False, dir="/dev/shm" if os.path.isdir("/dev/shm") else None) as f:
         f.write(smt2)
@@ -80,6 +80,21 @@ def satisfiable(hyps, timeout_ms=10000):
     return s.check()
 
 
+def _has_quant(f):
+    seen = set()
+    stack = [f]
+    while stack:
+        x = stack.pop()
+        i = x.get_id()
+        if i in seen:
+            continue
+        seen.add(i)
+        if z3.is_quantifier(x):
+            return True
+        stack.extend(x.children())
+    return False
+
+
 class Results:
     """collects obligation records of one unit"""
 
@@ -120,7 +135,9 @@ class Results:
         for p in paths:
             conc = (lambda m, p=p: concretize(m, p)) if concretize else None
             if check_vacuity and len(paths) <= 400:
-                if satisfiable(p.pc) == z3.unsat:
+                # vacuity guard: quantifier-free part of every path condition, full hypotheses of the first path
+                qf = [c for c in p.pc if not _has_quant(c)]
+                if satisfiable(qf, 5000) == z3.unsat or (p is paths[0] and len(qf) != len(p.pc) and satisfiable(p.pc, 5000) == z3.unsat):
                     self.vacuous += 1
                     continue
             for name, pc, goal in p.obligations:
@@ -338,7 +355,16 @@ def main(argv=None):
     exit_code = 0
     for o, f in knowns:
         print(f"KNOWN-FINDING: property={prop} {f.get('what')}")
+    per_unit = {}
+    shown = []
     for u, o in violations:
+        per_unit[u.id] = per_unit.get(u.id, 0) + 1
+        if per_unit[u.id] <= 6:
+            shown.append((u, o))
+    for uid, n in per_unit.items():
+        if n > 6:
+            print(f"NOTE unit={uid}: {n} failing obligations, the first 6 are replayed and reported")
+    for u, o in shown:
         cex = o.get("cex")
         if o.get("replayed") is not None:  # bounded units replay on the real code themselves
             reproduced, detail = o.get("replayed"), o.get("detail")
